@@ -35,7 +35,8 @@ DEBTS = {
     "weth": [("WETH", "0.9")],
     "usdt+usdc": [("USDT", "0.4"), ("USDC", "0.7")],
 }
-EXTRA_N = {"none": [], "usdtN": [("USDT", "700")]}
+# the big one is worth more than any collateral set: "the biggest collateral" must still be chosen among COLLATERAL supplies
+EXTRA_N = {"none": [], "usdtN": [("USDT", "700")], "usdtN-big": [("USDT", "7900")]}
 TARGETS = ["1.3", "1.000000001", "0.999999999", "0.97", "0.9500001", "0.949", "0.6", "0.2", "0.03"]
 QUICK_TARGETS = ["1.3", "1.000000001", "0.999999999", "0.97", "0.949", "0.6", "0.03"]
 USER_OPS = ["none", "read-views", "supply-more", "repay-part"]
@@ -310,7 +311,7 @@ def all_cases(run):
     debts = list(DEBTS)
     targets = TARGETS if run.thorough else QUICK_TARGETS
     users = USER_OPS if run.thorough else ["none", "read-views"]
-    extras = list(EXTRA_N) if run.thorough else ["none"]
+    extras = list(EXTRA_N) if run.thorough else ["none", "usdtN-big"]
     out = []
     for c, d, e, sh, t, u in itertools.product(colls, debts, extras, ("collateral-down", "debt-up"), targets, users):
         if d == "weth" and c in ("weth",):
